@@ -457,7 +457,12 @@ func (e *Engine) resolveIntrinsic(fn *ssa.Function, fi *fnInfo) intrinsicFn {
 		if f := osIntrinsic(fn); f != nil {
 			return f
 		}
-	case "time", "math/rand", "reflect", "internal/reflectlite", "runtime", "syscall", "internal/poll", "net":
+	case "time":
+		if f, ok := intrinsicTable[name]; ok {
+			return f
+		}
+		fallthrough
+	case "math/rand", "reflect", "internal/reflectlite", "runtime", "syscall", "internal/poll", "net":
 		if pkg == "runtime" && (fn.Name() == "KeepAlive" || fn.Name() == "SetFinalizer" || fn.Name() == "GC") {
 			return noopIntrinsic
 		}
